@@ -39,10 +39,14 @@ Record flags := mkFlags {
   neg_aborts_on_loop_end : bool;
   (* EOF after a CloseConnectionResponse parks the read loop only if this client sent
      CloseConnection; false = after any CloseConnectionResponse *)
-  close_wait_only_if_sent : bool }.
+  close_wait_only_if_sent : bool;
+  (* checkInitialMessage offers the first message to the default handler when no handler is
+     registered for its type (as passToHandler does for every later message); false = only
+     c.handlers[hdr.typ] is consulted: a client with just a default handler never sees it *)
+  first_offers_default : bool }.
 
-Definition flags_as_found : flags := mkFlags false false false false.
-Definition flags_repaired : flags := mkFlags true true true true.
+Definition flags_as_found : flags := mkFlags false false false false false.
+Definition flags_repaired : flags := mkFlags true true true true true.
 
 Record decoders := mkDec {
   dec_ren : list byte -> dec_out (option N);        (* ReaderEventNotification: ConnectionAttemptEvent if present *)
@@ -124,7 +128,8 @@ Definition check_initial (bs : list byte) : ci_out :=
         let alloc := HeaderSz + h_len h in                 (* make([]byte, hdr.payloadLen) *)
         if negb (len pl =? h_len h) then mkCi CiErr alloc false
         else
-          let called := has_handler cfg (h_typ h) in        (* via handleGuarded *)
+          (* via handleGuarded, BEFORE the type / decoding / status checks *)
+          let called := has_handler cfg (h_typ h) || (first_offers_default fl && has_default cfg) in
           if negb (h_typ h =? MsgReaderEventNotification) then mkCi CiErr alloc called
           else match dec_ren D pl with
                | DPanic => mkCi CiPanic alloc called
